@@ -260,6 +260,9 @@ func (e *Env) RunPath(s *smt.Solver, fn *ssa.Function, prefix []Decision, replay
 	if maxSteps > 0 {
 		i.maxSteps = maxSteps
 	}
+	if ms := os.Getenv("GOSYM_MAXSTEPS"); ms != "" {
+		fmt.Sscanf(ms, "%d", &i.maxSteps)
+	}
 	ctx := i.ctx
 	ctx.replayModel = replayModel
 	defer func() {
@@ -280,7 +283,7 @@ func (e *Env) RunPath(s *smt.Solver, fn *ssa.Function, prefix []Decision, replay
 			fmt.Fprintf(os.Stderr, "recent calls: %s\n", strings.Join(i.recent, "\n  "))
 		}
 		for _, d := range ctx.taken {
-			if d.Kind == 'n' {
+			if d.Kind == 'n' && strings.HasPrefix(d.Tag, "choice:") {
 				res.Choices = append(res.Choices, d.Alt)
 			}
 		}
@@ -385,12 +388,13 @@ type ExploreResult struct {
 	WallSecs    float64
 	StoppedWhy  string
 	MaxDepth    int
+	ForkTags    map[string]int // where paths fork: decision tag -> number of alternatives enqueued
 }
 
 // Explore runs the harness over all paths (DFS over decision vectors).
 func (e *Env) Explore(fn *ssa.Function, o ExploreOpts) *ExploreResult {
 	t0 := time.Now()
-	res := &ExploreResult{Harness: fn.Name(), InconclWhy: map[string]int{}, Reached: map[string]bool{}, Asserted: map[string]bool{}, Funcs: map[string]bool{}}
+	res := &ExploreResult{Harness: fn.Name(), InconclWhy: map[string]int{}, Reached: map[string]bool{}, Asserted: map[string]bool{}, Funcs: map[string]bool{}, ForkTags: map[string]int{}}
 	if o.Workers <= 0 {
 		o.Workers = 1
 	}
@@ -463,6 +467,14 @@ func (e *Env) Explore(fn *ssa.Function, o ExploreOpts) *ExploreResult {
 			// alternatives discovered on this path (push in reverse so the first is explored first)
 			for k := len(pr.Forks) - 1; k >= 0; k-- {
 				stack = append(stack, pr.Forks[k])
+				f := pr.Forks[k]
+				if n := len(f); n > 0 {
+					tag := f[n-1].Tag
+					if tag == "" && n-1 < len(pr.Taken) {
+						tag = pr.Taken[n-1].Tag
+					}
+					res.ForkTags[tag]++
+				}
 			}
 			switch pr.Status {
 			case psOK:
